@@ -566,3 +566,18 @@ contract(LANC + ".max_connection_lifetime!setter",
          modifies=["self._max_connection_lifetime"], raises={},
          ensures={"none_means_unlimited": "(self._max_connection_lifetime is None) == (seconds is None)",
                   "seconds_kept": "implies(seconds is not None, self._max_connection_lifetime.total_seconds() == seconds)"})
+
+
+# ---- event-loop callbacks of the protocol objects: they are called by the environment, so they are verified on their own -----------
+contract(LAN + "_LanProtocol.connection_made",
+         params={"self": "sub:" + LAN + "_LanProtocol", "transport": "ext:transport"},
+         modifies=["self._transport", "self._peer"], raises={},
+         ensures={"transport_kept_for_the_session": "same_object(self._transport, transport)"},
+         notes="proto_ok / lan_inv rely on it: a connected protocol has its transport")
+
+contract(LAN + "_LanProtocol.connection_lost",
+         params={"self": "sub:" + LAN + "_LanProtocol", "exc": "opt:str"},
+         modifies=[], raises={},
+         ensures={"still_has_its_transport": "(self._transport is None) == (old(self._transport) is None)"},
+         notes="C08/C09: losing the connection changes nothing in the protocol object (the transport is closing; LAN._alive sees that, "
+               "LAN._disconnect() still finds the transport to close and replaces the protocol); in particular lan_inv keeps holding")
